@@ -72,10 +72,24 @@ class C01Episode(Episode):
                 continue
             if wc['opts'].get('respawn', True) is False:
                 continue
-            g = self.ask('get', {'name': name, 'keys': ['numprocesses',
-                                                        'singleton']})
-            ls = self.ask('list', {'name': name})
-            np_reply = self.ask('numprocesses', {'name': name})
+            # the views are asked one after the other: a max_age expiry
+            # ("something changes") may fall between them - ask again then
+            for attempt in range(6):
+                mark = (len(k.signals), len(k.spawns))
+                g = self.ask('get', {'name': name, 'keys': ['numprocesses',
+                                                            'singleton']})
+                ls = self.ask('list', {'name': name})
+                np_reply = self.ask('numprocesses', {'name': name})
+                if mark == (len(k.signals), len(k.spawns)) and \
+                        w.arbiter._exclusive_running_command is None:
+                    break
+                if not wc['opts'].get('max_age'):
+                    break
+                self.probes['views_interrupted_by_max_age'] += 1
+                w.settle(extra_checks=0)
+            else:
+                self.probes['max_age_watcher_never_quiet'] += 1
+                continue
             try:
                 n = g['options']['numprocesses']
                 singleton = g['options'].get('singleton')
